@@ -8,6 +8,7 @@ import TsVerif.C06.FieldProps
 import TsVerif.C06.SiblingNamed
 import TsVerif.C06.SiblingNamedNext
 import TsVerif.C06.NamedFcb
+import TsVerif.C06.CursorFcb
 #print axioms TsVerif.C06.child_spec
 #print axioms TsVerif.C06.flattenKids_length
 #print axioms TsVerif.C06.child_count_spec
@@ -107,3 +108,6 @@ import TsVerif.C06.NamedFcb
 #print axioms TsVerif.C06.fcbNodeA_eq_find
 #print axioms TsVerif.C06.first_child_for_byte_flat_spec_anon
 #print axioms TsVerif.C06.first_child_for_byte_ft_spec_anon
+#print axioms TsVerif.C06.cfc_scan_spec
+#print axioms TsVerif.C06.cfc_go_spec
+#print axioms TsVerif.C06.cursor_first_child_for_spec
